@@ -8,6 +8,7 @@ import hashlib
 import importlib
 import json
 import os
+import pickle
 import subprocess
 import sys
 import time
@@ -95,17 +96,69 @@ def run_one(prop: str, run_seed: int, tier: str, ops=None, cfg=None, want_log=Fa
     return res
 
 
+def run_isolated(prop: str, run_seed: int, tier: str, **kw) -> dict:
+    """
+    run_one in a process of its own, forked from a parent that has imported the library but never
+    executed it: whatever process-global state the library (or a dependency) keeps - class-level
+    memos, module caches, decimal/warnings contexts - starts every run pristine, so a run is a pure
+    function of its seed and replays in a fresh interpreter. State leaking from one document to the
+    next is explored INSIDE runs (several documents per run), never between them.
+    """
+    if os.environ.get("VERIF_NO_ISOLATION"):
+        return run_one(prop, run_seed, tier, **kw)
+    rfd, wfd = os.pipe()
+    sys.stdout.flush()
+    sys.stderr.flush()
+    pid = os.fork()
+    if pid == 0:
+        code = 0
+        try:
+            os.close(rfd)
+            data = pickle.dumps(run_one(prop, run_seed, tier, **kw), protocol=pickle.HIGHEST_PROTOCOL)
+            with os.fdopen(wfd, "wb") as fh:
+                fh.write(data)
+        except BaseException:  # noqa: BLE001
+            code = 3
+            try:
+                traceback.print_exc()
+            except Exception:  # noqa: BLE001
+                pass
+        finally:
+            os._exit(code)
+    os.close(wfd)
+    chunks = []
+    with os.fdopen(rfd, "rb") as fh:
+        while True:
+            b = fh.read(1 << 20)
+            if not b:
+                break
+            chunks.append(b)
+    _, status = os.waitpid(pid, 0)
+    if chunks and status == 0:
+        return pickle.loads(b"".join(chunks))  # noqa: S301
+    res = {"seed": run_seed, "prop": prop, "nops": len(kw.get("ops") or ()), "violation": None,
+           "error": f"run process ended without a result (wait status {status}: watchdog timeout or crash; traceback on stderr)",
+           "ops": kw.get("ops"), "cfg": kw.get("cfg")}
+    if kw.get("ops") is None:
+        try:
+            res["cfg"], res["ops"] = profile_for(prop).gen(run_seed, tier, kw.get("idx"))
+            res["nops"] = len(res["ops"])
+        except Exception:  # noqa: BLE001
+            pass
+    return res
+
+
 def _worker_chunk(prop, base_seed, tier, idxs):
     out = []
     for i in idxs:
-        r = run_one(prop, run_seed_for(base_seed, prop, i), tier, keep_ops=(i < 3), idx=i)
+        r = run_isolated(prop, run_seed_for(base_seed, prop, i), tier, keep_ops=(i < 3), idx=i)
         r["idx"] = i
         out.append(r)
     return out
 
 
 def _worker_replay(prop, seed, cfg, ops):
-    return run_one(prop, seed, "quick", ops=ops, cfg=cfg)
+    return run_isolated(prop, seed, "quick", ops=ops, cfg=cfg)
 
 
 # ---------------------------------------------------------------------------------------------------
@@ -520,7 +573,9 @@ def replay_known(prop: str, f: dict) -> bool:
     path = w if os.path.isabs(w) else os.path.join(VERIF, w)
     if not os.path.exists(path):
         return False
-    res, rp = replay_file(prop, path)
+    with open(path) as fh:
+        rp = json.load(fh)
+    res = run_isolated(rp.get("property", prop), rp["seed"], "quick", ops=rp["ops"], cfg=rp["cfg"])
     v = res.get("violation")
     key = f["key"] if isinstance(f["key"], str) else json.dumps(f["key"], sort_keys=True)
     return bool(v) and v["check_id"] == f["check_id"] and v["key"] == key
